@@ -1165,7 +1165,7 @@ class Interp:
 
 
 # iteration order used for sets built by interpreted code: 0 source/insertion order, 1 reversed,
-# 2 sorted, 3 reverse-sorted.  Rules that care about hash-seed independence sweep all four.
+# 2 sorted, 3 reverse-sorted, >= 10 a pseudo-random permutation seeded by the mode (stands for a hash seed).
 SET_ORDER = 0
 
 
@@ -1187,6 +1187,11 @@ class _OrderedSet(set):
             return iter(list(self._order))
         if mode == 1:
             return iter(list(reversed(self._order)))
+        if mode >= 10:
+            import random
+            lst = list(self._order)
+            random.Random(mode * 1000003 + len(lst) * 7919 + sum(len(str(x)) for x in lst)).shuffle(lst)
+            return iter(lst)
         try:
             return iter(sorted(self._order, reverse=(mode == 3)))
         except TypeError:
